@@ -91,7 +91,9 @@ pub fn visit_set(c: u32, d: u32) -> u64 {
 #[derive(Clone, Copy, Debug, PartialEq, Eq)]
 pub enum SOp {
     Ins { lo: i64, hi: i64, exp: i32 },
-    /// take < 0: consume fully; otherwise stop after `take` items and drop the iterator
+    /// take >= 0: stop after `take` items and drop the iterator. take < 0: consume fully, through
+    /// -1 a `next()` loop, -2 `count()`, -3 `last()`, -4 `fold`, -5 `collect()`, -6 `nth(huge)`,
+    /// -7 `for_each`, -8 `by_ref().take(1)` then `count()` of the rest
     Q { lo: i64, hi: i64, t: i32, take: i32 },
     Clear,
 }
@@ -317,21 +319,45 @@ where
                 rep.counters.inc(if take < 0 { "op_query_full" } else { "op_query_partial" });
                 let mut got: Vec<u32> = Vec::new();
                 ctx::phase(0);
+                // for the draining adaptors that do not hand the values out: how many there were /
+                // which one came last
+                let mut counted: Option<usize> = None;
+                let mut last_seen: Option<Option<u32>> = None;
                 {
                     let mut it = self.sut.iter_by_range(SegRange { min: R::from_i64(lo), max: R::from_i64(hi) }, t);
-                    let mut n = 0;
-                    while take < 0 || n < take {
-                        match it.next() {
-                            Some(v) => got.push(v.id),
-                            None => break,
+                    match take {
+                        -2 => counted = Some(it.count()),
+                        -3 => last_seen = Some(it.last().map(|v| v.id)),
+                        -4 => got = it.fold(Vec::new(), |mut acc, v| {
+                            acc.push(v.id);
+                            acc
+                        }),
+                        -5 => got = it.map(|v| v.id).collect::<Vec<u32>>(),
+                        -6 => last_seen = Some(it.nth(usize::MAX / 2).map(|v| v.id)),
+                        -7 => it.for_each(|v| got.push(v.id)),
+                        -8 => {
+                            got.extend(it.by_ref().take(1).map(|v| v.id));
+                            counted = Some(got.len() + it.count());
                         }
-                        n += 1;
-                        if got.len() > 4 * self.model.len() + 8 {
-                            break;
+                        _ => {
+                            let mut n = 0;
+                            while take < 0 || n < take {
+                                match it.next() {
+                                    Some(v) => got.push(v.id),
+                                    None => break,
+                                }
+                                n += 1;
+                                if got.len() > 4 * self.model.len() + 8 {
+                                    break;
+                                }
+                            }
                         }
                     }
                 }
                 ctx::phase(1);
+                if take < -1 {
+                    rep.counters.inc("op_query_full_through_adaptor");
+                }
                 if self.model.iter().any(|m| m.exp == t && m.blo <= d && c <= m.bhi) {
                     rep.counters.inc("query_with_value_expiring_exactly_at_t");
                 }
@@ -368,7 +394,19 @@ where
                     if dup {
                         return Err(Fail::new("query:duplicate", format!("query buckets [{},{}] at t={} yielded a value twice: {}", c, d, t, describe(&g))));
                     }
-                    if take < 0 {
+                    if let Some(n) = counted {
+                        if n != want.len() {
+                            return Err(Fail::new("query:count", format!("query buckets [{},{}] at t={} drained through count(): {} values, reference {}", c, d, t, n, want.len())));
+                        }
+                    } else if let Some(l) = last_seen {
+                        let ok = match l {
+                            None => want.is_empty() || take == -6,
+                            Some(id) => want.contains(&id) && take == -3,
+                        };
+                        if !ok {
+                            return Err(Fail::new("query:last", format!("query buckets [{},{}] at t={} drained through last()/nth(): got {:?}, reference answer has {} values", c, d, t, l, want.len())));
+                        }
+                    } else if take < 0 {
                         if g != want {
                             let extra: Vec<u32> = g.iter().copied().filter(|x| !want.contains(x)).collect();
                             let missing: Vec<u32> = want.iter().copied().filter(|x| !g.contains(x)).collect();
